@@ -3,6 +3,7 @@ open StarsimModel.C04
 #print axioms C04_stride_positive
 #print axioms C04_delta_positive
 #print axioms C04_loop_jumps_unforced
+#print axioms C04_jump_target_is_model
 #print axioms C04_monotone
 #print axioms C04_no_state_twice
 #print axioms C04_init_coherent
